@@ -252,6 +252,9 @@ def build_path(path, variant):
         inner = wrap(idx + 1) if idx + 1 < len(path) else min_block(ct, 1)
         mkitem = {"child": child, "children": children, "inline": inline}[how]
         items = [mkitem(key, inner)]
+        for r in V.required(parent):
+            rs = V.slot(parent, r)
+            items.insert(0, kw(r, V.reps_for(rs, rs.alts[0], valid_only=True)[0]))
         if variant == "before_after":
             f = filler_kws(parent, 2, avoid=(key,))
             if len(f) >= 2:
